@@ -53,7 +53,13 @@ def main():
         for _ in range(rng.randrange(0, maxn + 1)):
             s = rng.randrange(0, span)
             e = s + rng.choice([0, 1, 1, 2, 5, 16, rng.randrange(1, span)])
-            rs = rs | range_set.RangeSet(s, e) if rng.random() < 0.5 else range_set.RangeSet(s, e) | rs
+            r = rng.random()
+            if r < 0.4:
+                rs = rs | range_set.RangeSet(s, e)
+            elif r < 0.8:
+                rs = range_set.RangeSet(s, e) | rs
+            else:
+                rs |= range_set.RangeSet(s, e)
         return rs
 
     def flat(rs):
@@ -114,26 +120,26 @@ def main():
     outs = ck.model(reqs)
     evaluations += len(reqs)
     disagreeA = [i for i, (m, r) in enumerate(zip(outs, reals)) if m != r]
+    # Spec (quadratic definition, Spec/RangeOverlap.lean) on the real answers for everything the class can build
+    specI = [i for i, mt in enumerate(metas) if mt[0] in ("rs", "rs-small")]
+    specA = ck.model(["rsoverlap" + reqs[i][len("rsintersects"):] for i in specI])
+    evaluations += len(specI)
+    wrongA = [i for i, sp in zip(specI, specA) if sp != reals[i]]
     for (kind, x, y), r in zip(metas, reals):
         ck.count("A_" + kind)
         if kind != "union":
             ck.count(f"A_result_{r}")
         if x and y:
             nontrivial.add(("A", kind, x, y, r))
-    if disagreeA:
+    for i in wrongA[:3]:
+        ck.violation(f"RangeSet.intersects answers {reals[i]} but the range sets {'do' if reals[i] == '0' else 'do not'} overlap: `{reqs[i][:200]}`",
+                     {"request": reqs[i][:1000], "implementation": reals[i], "how": "RangeSet(ranges=a).intersects(RangeSet(ranges=b)) on lists built with | and RangeSet(s, e)"})
+    if disagreeA and not wrongA:
         i = min(disagreeA, key=lambda j: len(reqs[j]))
-        # failing-input search: the quadratic definition decides whether the *code* is wrong
-        kind = metas[i][0]
-        wrong = False
-        if kind in ("rs", "rs-small"):
-            la, lb = [list(map(int, p.split())) for p in reqs[i][len("rsintersects "):].split("|")]
-            pa, pb = list(zip(la[::2], la[1::2])), list(zip(lb[::2], lb[1::2]))
-            truth = any(max(s1, s2) < min(e1, e2) for s1, e1 in pa for s2, e2 in pb)
-            wrong = (reals[i] == "1") != truth
         ck.violation(f"range_set.py and Model/RangeSet.lean disagree on {len(disagreeA)} inputs, e.g. `{reqs[i][:200]}`: "
                      f"code {reals[i][:80]}, model {outs[i][:80]}",
-                     {"correspondence": "A range_set", "request": reqs[i][:1000], "model": outs[i], "implementation": reals[i],
-                      "code_contradicts_definition": wrong}, found_input=wrong)
+                     {"correspondence": "A range_set", "request": reqs[i][:1000], "model": outs[i], "implementation": reals[i]},
+                     found_input=False)
 
     # ------------------------------------------------------------------------------------------
     # B. get_wait_dependency over abstract conflict relations
